@@ -13,7 +13,7 @@ def families(tier):
     q = tier == 'quick'
     L = 4 if q else 5
     f = Family('split', 'c12_split.c', units=['strings.c', 'debug.c'], stubs=['msgs_stub.c', 'libc_models.c'], unwind=L + 3,
-               cap=(240, 10) if q else (900, 14))
+               cap=(240, 6) if q else (900, 12))
     for ln in range(0, L + 1):
         for comma in (0, 1):
             f.add('C12/split/len=%d,delim=%s' % (ln, 'comma' if comma else 'ws'), 'h_split', ln, comma)
